@@ -812,3 +812,65 @@ func transportMust(u *Update, how string) *Update {
 	}
 	return r
 }
+
+// ---------- native fuzzing of the Update decoders (thorough tier): for any bytes that decode,
+// the library's verdict must equal the reference's.
+func c10FuzzWorld() *c10World {
+	w := newC10World(0, 3)
+	w.a, w.b = 1, 3
+	return w
+}
+
+func FuzzVF_C10_UpdateJSON(f *testing.F) {
+	w := c10FuzzWorld()
+	pk := w.ch.kp.Pk
+	for a := 0; a <= 3; a++ {
+		b, _ := json.Marshal(w.ch.window(a, 3, false))
+		f.Add(b)
+	}
+	f.Add([]byte(`{"sacc":null}`))
+	f.Add([]byte(`{"sacc":{"data":"AA==","pk":0},"e":{"i":0,"hash":"","e":["AQ=="]}}`))
+	f.Fuzz(func(t *testing.T, data []byte) {
+		var u Update
+		if err := json.Unmarshal(data, &u); err != nil {
+			return
+		}
+		c10FuzzJudge(t, pk, &u)
+	})
+}
+
+func FuzzVF_C10_UpdateCBOR(f *testing.F) {
+	w := c10FuzzWorld()
+	pk := w.ch.kp.Pk
+	for a := 0; a <= 3; a++ {
+		b, _ := cbor.Marshal(w.ch.window(a, 3, false), cbor.EncOptions{})
+		f.Add(b)
+	}
+	f.Fuzz(func(t *testing.T, data []byte) {
+		var u Update
+		if err := cbor.Unmarshal(data, &u); err != nil {
+			return
+		}
+		c10FuzzJudge(t, pk, &u)
+	})
+}
+
+func c10FuzzJudge(t *testing.T, pk *gabikeys.PublicKey, u *Update) {
+	if u.SignedAccumulator == nil {
+		return // nothing to verify against; Verify on it is a caller error, not an input
+	}
+	for _, e := range u.Events {
+		if e == nil || e.E == nil {
+			return
+		}
+	}
+	_, authentic := refAuthentic(pk, u)
+	c := cloneUpdate(u)
+	var err error
+	if ps := vfh.Guard(func() { _, err = c.Verify(pk) }); ps != "" {
+		t.Fatalf("VF-VIOLATION %s:Update.Verify", ps)
+	}
+	if authentic != (err == nil) {
+		t.Fatalf("VF-VIOLATION update-verdict-differs-from-reference(authentic=%v,err=%v)", authentic, err)
+	}
+}
